@@ -127,8 +127,10 @@ def build_corpus(cdir, cfg, release=False, rustflags=None, tag=None, toolchain=N
     return dst, out
 
 
-def run_shards(cdir, tag, mode, seed, tier, nshards, extra=None, timeout=3000, env_extra=None, cap=None):
+def run_shards(cdir, tag, mode, seed, tier, nshards, extra=None, timeout=None, env_extra=None, cap=None):
     """Run all shard binaries of one configuration in parallel; returns list of result dicts."""
+    # generous wall-clock watchdog (a quick shard normally needs about a second); its firing is inconclusive
+    timeout = timeout or (600 if tier == "quick" else 6000)
     bdir = os.path.join(cdir, "bin", tag)
     rdir = os.path.join(cdir, "results", tag + "-" + mode)
     os.makedirs(rdir, exist_ok=True)
@@ -303,15 +305,16 @@ def ensure_corpus(ctx, profile, cfgs, release=False):
     return cdir, meta, tags
 
 
-def collect_r(ctx, results, props, stage_name, count_key="cases", nontrivial_key="distinct_cases"):
+def collect_r(ctx, results, props, stage_name, count_key="cases", nontrivial_key="distinct_cases", adopt=None):
     """Fold shard results into the context. Returns aggregate dict."""
     agg = {"cases": 0, "distinct_cases": 0, "items": 0, "error_items": 0, "runs_with_error": 0, "runs_with_skip": 0,
            "runs_with_multibyte": 0, "definitions": 0, "violation_count": 0, "traced_runs": 0, "read_events": 0, "attempts": 0,
            "restarts": 0, "max_reads_per_examined_byte": 0.0, "splits": 0, "stopped_mid_stream": 0, "chunk_schedules": 0,
            "determinedness_inconclusive": 0, "inputs": {}, "callback_invocations": 0, "runs_with_callbacks": 0, "callback_bumps": 0}
     for r in results:
-        if r.get("inconclusive"):
-            ctx.inconclusive.append(f"{stage_name} shard {r['shard']}: {r['inconclusive']}")
+        if r.get("inconclusive") and not isinstance(r.get("inconclusive"), list):
+            ctx.inconclusive.append(f"{stage_name} shard {r['shard']}: {r['inconclusive']} (a lexer that does not terminate cannot be told from a slow machine: no verdict)")
+            ctx.fatal_inconclusive = True
             continue
         if r.get("crashed"):
             # a shard killed by a signal (stack overflow, abort) is a finding about the lexer, reported as such
@@ -332,7 +335,7 @@ def collect_r(ctx, results, props, stage_name, count_key="cases", nontrivial_key
         for k, v in r.get("inputs", {}).items():
             agg["inputs"][k] = agg["inputs"].get(k, 0) + v
         for v in r.get("violations", []):
-            if v["property"] in props:
+            if v["property"] in props or (adopt and adopt(v)):
                 v = dict(v)
                 v["stage"] = stage_name
                 v["property_original"] = v["property"]
@@ -572,13 +575,13 @@ L_RULE = ("L-level: generated definitions go through the real generate(); for ev
           "independent per-pattern reference automata over all inputs (rules of DESIGN 3.3); non-trivial = accepted with more than one product tuple.")
 
 
-def stage_stream(ctx, profile, cfgs, props, release=False, name=None):
+def stage_stream(ctx, profile, cfgs, props, release=False, name=None, adopt=None):
     cdir, meta, tags = ensure_corpus(ctx, profile, cfgs, release=release)
     cap = tier_params(ctx.tier)["cap"]
     aggs = {}
     for cfg in cfgs:
         res = run_shards(cdir, tags[cfg], "stream", ctx.seed, ctx.tier, meta["shards"], cap=cap)
-        aggs[cfg] = collect_r(ctx, res, props, f"{name or 'R:stream'}:{profile}:{tags[cfg]}")
+        aggs[cfg] = collect_r(ctx, res, props, f"{name or 'R:stream'}:{profile}:{tags[cfg]}", adopt=adopt)
         log(f"ran {profile} stream [{tags[cfg]}]: {aggs[cfg]['cases']} cases")
     return cdir, meta, tags, aggs
 
@@ -696,7 +699,10 @@ def check_C05(ctx):
                   "(u8, &[u8;1..=16], &[u8;32]; str/[u8]/String/Vec/&str/Box<str>; lengths 0..=40; offsets 0..=len+9 and around usize::MAX) in debug and release, default and forbid_unsafe; "
                   "(iii) the same workloads in an AddressSanitizer build with every source in an exactly sized heap block (front/back aligned); (iv) corpus shards and apidrv under Miri. "
                   "Non-trivial: distinct (definition, input, observation) cases; in-range reads compared byte for byte."]
-    cdir, meta, tags, aggs = stage_stream(ctx, "mixed", list(CONFIGS), {"C05"})
+    # a span outside the source or inside a code point is what lets safe code form an out-of-range slice:
+    # the runner reports such spans instead of slicing, C05 adopts those reports
+    span_rule = lambda v: v.get("rule") == "accessor-or-span" and v.get("property") in ("C03", "C04")
+    cdir, meta, tags, aggs = stage_stream(ctx, "mixed", list(CONFIGS), {"C05"}, adopt=span_rule)
     fold_stream_cov(ctx, aggs, "distinct_cases")
     n = obs_join(ctx, cdir, tags["tc"], tags["tc_safe"], "stream", meta["shards"], "default vs forbid_unsafe (tail-call)")
     n += obs_join(ctx, cdir, tags["sm"], tags["sm_safe"], "stream", meta["shards"], "default vs forbid_unsafe (state machine)")
